@@ -281,7 +281,9 @@ class Interp:
         if isinstance(v, (ListV, SetV, DictV, SymSet, ValuesView)):
             return self.nonempty(v)
         if isinstance(v, RecV):
-            return True   # payloads built by the code under proof are never empty dict literals (checked at creation)
+            # a payload dict is falsy iff it holds none of the declared keys (`self.ref_stats = {}` ... `if self.ref_stats:`)
+            h = self.H(v)
+            return z3.Or([self.rec_has(k, h)[0][v.ref] for k in sorted(getattr(self.ts.shapes, 'REC_KEYS', {}))])
         raise Unsupported(f'truthiness of {type(v).__name__}')
 
     def as_bool(self, b):
